@@ -11,14 +11,14 @@ RULE = ('Hypothesis draws max_http_buffer_size from {1, 2, 5, 16, 100, 1000, def
         '{POST body, frame on an established WebSocket (ws-first or upgraded), first frame and '
         'second frame of an upgrade socket}, a length from {limit-2..limit+2, 0, 1, 10*limit}, '
         'text, binary or base64-text (b...) content, a declared Content-Length smaller / equal / larger than the body, '
-        'the number of packets in the body 0..18 and the number of body chunks; each case runs on a '
+        'the configured per-body packet limit {16 (default), 1, 4, 40} and the number of packets in the body 0..limit+2, and the number of body chunks; each case runs on a '
         'fresh world of either server. Oracle: no message event from a body declared over the '
         'limit or from a frame longer than it; every wsgi.input.read(n) has 0 <= n <= min(declared, '
         'limit) and the ASGI driver calls receive() for more body only while it holds fewer bytes '
         'than that; a body or frame of '
         'exactly the limit is accepted and processed; an oversize POST is answered 400 and ends '
         'the session, an oversize frame on an established WebSocket ends the session, an oversize '
-        'handshake frame leaves the session on polling; at most 16 packets of one body are '
+        'handshake frame leaves the session on polling; at most the configured number of packets of one body are '
         'dispatched. Non-trivial: length within 2 of the limit, or declared != actual, or >= 15 '
         'packets. Distinct: hash of the case.')
 ASSUMPTIONS = ['same kernel assumptions as C03',
@@ -54,7 +54,9 @@ def case_st(draw):
                                                  'over-limit', 'at-limit']))
         case['chunks'] = draw(st.sampled_from([1, 1, 2, 5]))
     if carrier == 'post-many':
-        case['n'] = draw(st.integers(0, 18))
+        # the per-body packet limit is configuration too (Payload.max_decode_packets)
+        case['pkt_limit'] = P = draw(st.sampled_from([16, 16, 16, 1, 4, 40]))
+        case['n'] = draw(st.one_of(st.integers(0, P + 2), st.sampled_from([P - 1, P, P + 1, P + 2])))
         case['form'] = draw(st.sampled_from(['plain', 'plain', 'd=quote', 'd=raw-separators']))
         case['limit'] = draw(st.sampled_from([1000, 1000000]))
         case['size'] = None
@@ -72,7 +74,12 @@ def check_case(case, ctx=None):
     ex = Exec(impl, {'max_http_buffer_size': L, 'http_compression': False,
                      'async_handlers': False})
     w = ex.world
+    from engineio import payload as _payload
+    P = case.get('pkt_limit', 16)
+    P0 = _payload.Payload.max_decode_packets
     try:
+        if P != 16:
+            _payload.Payload.max_decode_packets = P     # how an application configures it
         first = 'websocket' if carrier in ('ws-frame', 'post-to-ws-first') else 'polling'
         ex.do({'op': 'open', 'transport': first})
         s = ex.sessions[0]
@@ -183,16 +190,18 @@ def check_case(case, ctx=None):
                        headers=[('Host', 'localhost')])
             w.settle()
             trig = 'post-many|%s|n=%s' % (form, '<=16' if n <= 16 else '>16')
+            if P != 16:
+                trig = 'post-many|%s|limit=%d|n%slimit' % (form, P, '<=' if n <= P else '>')
             got = msgs()
-            if n <= 16:
+            if n <= P:
                 if got != ['m%d' % i for i in range(n)]:
                     raise V(impl, 'packets-within-limit-not-processed', trig,
                             '%d packets posted, events %r' % (n, got), rep)
             else:
                 if got:
                     raise V(impl, 'over-16-packets-processed', trig,
-                            '%d packets posted, %d dispatched' % (n, len(got)), rep)
-            if len(got) > 16:
+                            '%d packets posted (limit %d), %d dispatched' % (n, P, len(got)), rep)
+            if len(got) > P:
                 raise V(impl, 'over-16-packets-processed', trig, '%d dispatched' % len(got), rep)
         else:
             size = case['size']
@@ -273,10 +282,11 @@ def check_case(case, ctx=None):
         if ctx:
             sz = case.get('size')
             nt = (sz is not None and abs(sz - L) <= 2) or case.get('declared') in (
-                'smaller', 'larger', 'over-limit', 'at-limit') or case.get('n', 0) >= 15
+                'smaller', 'larger', 'over-limit', 'at-limit') or (case.get('n', 0) >= case.get('pkt_limit', 16) - 1 and 'n' in case)
             ctx.case(rep, nt, [impl, 'carrier-' + carrier] + (['frame-b64-text'] if case.get('b64') else []) + [
                                'size-' + rel(sz, L) if sz is not None else 'n-%d' % case['n']])
     finally:
+        _payload.Payload.max_decode_packets = P0
         ex.close()
 
 
